@@ -30,6 +30,7 @@ Universe == [
   H3  |-> O("HelicalGear", 24, Null, T25, Null, "H3"),
   W   |-> O("WormGear", 2, Null, T10, A20, "W"),
   W2  |-> O("WormGear", 1, Null, T20, A20, "W2"),
+  W3  |-> O("WormGear", 3, Null, "1/40", A20, "W3"),             \* flat helix (2.9 deg): self-locking already for f > 0.047
   Wh  |-> O("WormWheel", 40, Null, T10, A20, "Wh"),
   Wh2 |-> O("WormWheel", 50, Null, T10, A25, "Wh2") ]
 
